@@ -56,48 +56,92 @@ def model_snippet(model, limit=40):
     return out
 
 
+def cvc5_check(smt2: str, timeout_ms: int):
+    """second back end: /usr/bin/cvc5 on the SMT-LIB text of the VC. -> 'unsat' | 'sat' | 'unknown'"""
+    import subprocess
+    import tempfile
+
+    exe = "/usr/bin/cvc5"
+    if not os.path.exists(exe):
+        return "unknown", "cvc5 not installed"
+    with tempfile.NamedTemporaryFile("w", suffix=".smt2", dir=os.environ.get("TMPDIR", "/var/tmp"), delete=False) as f:
+        # z3 prints its internal total/partial element access symbols; both are cvc5's total seq.nth
+        smt2 = smt2.replace("seq.nth_u", "seq.nth").replace("seq.nth_i", "seq.nth")
+        f.write("(set-logic ALL)\n" + smt2)
+        path = f.name
+    try:
+        p = subprocess.run([exe, "--strings-exp", f"--tlimit={timeout_ms}", path], capture_output=True, text=True, timeout=timeout_ms / 1000 + 10)
+        out = (p.stdout or "").strip().splitlines()
+        first = out[0].strip() if out else ""
+        if first in ("unsat", "sat"):
+            return first, ""
+        return "unknown", (p.stderr or first)[:200]
+    except Exception as e:  # timeout, crash
+        return "unknown", f"{type(e).__name__}"
+    finally:
+        try:
+            os.unlink(path)
+        except OSError:
+            pass
+
+
 def discharge(eng: Engine, vc, timeout_ms):
     g = z3.simplify(vc.goal)
     if z3.is_true(g):
         return {"status": "discharged", "solver": "simplifier", "time_s": 0.0}
-    s = z3.Solver()
-    s.set("timeout", timeout_ms)
-    for ax in eng.reg.axioms:
-        s.add(ax)
-    for p in vc.pc:
-        s.add(p)
-    s.add(z3.Not(vc.goal))
+
+    def mk(timeout, seed=None, logic=None):
+        s = z3.SolverFor(logic) if logic else z3.Solver()
+        s.set("timeout", timeout)
+        if seed is not None:
+            s.set("random_seed", seed)
+        for ax in eng.reg.axioms:
+            s.add(ax)
+        for p in vc.pc:
+            s.add(p)
+        s.add(z3.Not(vc.goal))
+        return s
+
     t0 = time.time()
+    s = mk(min(3000, timeout_ms))
     r = s.check()
-    dt = time.time() - t0
+    res = {"solver": "z3"}
     status = "discharged" if r == z3.unsat else ("refuted" if r == z3.sat else "unknown")
-    res = {"status": status, "solver": "z3", "time_s": round(dt, 4)}
     if r == z3.sat:
         try:
             res["model"] = model_snippet(s.model())
         except Exception:
             res["model"] = {}
-    if r == z3.unknown:
+    if status == "unknown":
         res["reason"] = s.reason_unknown()
-        # second opinion: a fresh solver with a different tactic / seed
-        s2 = z3.SolverFor("ALL")
-        s2.set("timeout", timeout_ms)
-        s2.set("random_seed", 7)
-        for ax in eng.reg.axioms:
-            s2.add(ax)
-        for p in vc.pc:
-            s2.add(p)
-        s2.add(z3.Not(vc.goal))
-        r2 = s2.check()
-        if r2 == z3.unsat:
-            res.update(status="discharged", solver="z3(retry)")
-        elif r2 == z3.sat:
-            res.update(status="refuted", solver="z3(retry)")
-            try:
-                res["model"] = model_snippet(s2.model())
-            except Exception:
-                res["model"] = {}
-    if res["status"] != "discharged" or vc.extra.get("want_smt"):
+        smt2 = None
+        try:
+            smt2 = s.to_smt2()
+        except Exception:
+            pass
+        if smt2 is not None:
+            v, why = cvc5_check(smt2, timeout_ms)
+            if v == "unsat":
+                status, res["solver"] = "discharged", "cvc5"
+            elif v == "sat":
+                status, res["solver"] = "refuted", "cvc5"
+                res["model"] = {"note": "counter-model found by cvc5 (not extracted)"}
+            else:
+                res["cvc5"] = why
+        if status == "unknown":
+            s2 = mk(timeout_ms, seed=7)
+            r2 = s2.check()
+            if r2 == z3.unsat:
+                status, res["solver"] = "discharged", "z3(retry)"
+            elif r2 == z3.sat:
+                status, res["solver"] = "refuted", "z3(retry)"
+                try:
+                    res["model"] = model_snippet(s2.model())
+                except Exception:
+                    res["model"] = {}
+    res["status"] = status
+    res["time_s"] = round(time.time() - t0, 4)
+    if status != "discharged" or vc.extra.get("want_smt"):
         try:
             res["smt2"] = s.to_smt2()[:20000]
         except Exception:
@@ -105,12 +149,87 @@ def discharge(eng: Engine, vc, timeout_ms):
     return res
 
 
+_VERIF_HASH = None
+
+
+def verif_source_hash():
+    """hash of the verifier and contract sources (part of the result-cache key)"""
+    global _VERIF_HASH
+    if _VERIF_HASH is None:
+        h = hashlib.sha256()
+        for d in ("pyvc", "contracts"):
+            for fn in sorted(os.listdir(os.path.join(HERE, d))):
+                if fn.endswith(".py"):
+                    h.update(fn.encode())
+                    h.update(open(os.path.join(HERE, d, fn), "rb").read())
+        h.update(z3.get_version_string().encode())
+        _VERIF_HASH = h.hexdigest()
+    return _VERIF_HASH
+
+
+class IncrementalDischarger:
+    """VCs of one path share a growing path condition: keep one solver per path, add only the new
+    conjuncts, and check each goal under push/pop.  Anything but `unsat` is re-checked from scratch
+    by discharge() (so verdicts never depend on the incremental solver state)."""
+
+    def __init__(self, eng, timeout_ms):
+        self.eng = eng
+        self.timeout_ms = timeout_ms
+        self.run = None
+        self.solver = None
+        self.npc = 0
+        self.pc_ids = []
+
+    def _reset(self, run):
+        self.run = run
+        self.solver = z3.Solver()
+        self.solver.set("timeout", 1000)  # fast path only; anything slower goes to discharge()
+        for ax in self.eng.reg.axioms:
+            self.solver.add(ax)
+        self.pc_ids = []
+
+    def discharge(self, vc):
+        g = z3.simplify(vc.goal)
+        if z3.is_true(g):
+            return {"status": "discharged", "solver": "simplifier", "time_s": 0.0}
+        ids = [p.get_id() for p in vc.pc]
+        if self.run != vc.run or ids[: len(self.pc_ids)] != self.pc_ids:
+            self._reset(vc.run)
+        for p in vc.pc[len(self.pc_ids):]:
+            self.solver.add(p)
+        self.pc_ids = ids
+        t0 = time.time()
+        self.solver.push()
+        self.solver.add(z3.Not(vc.goal))
+        r = self.solver.check()
+        self.solver.pop()
+        dt = time.time() - t0
+        if r == z3.unsat and not vc.extra.get("want_smt"):
+            return {"status": "discharged", "solver": "z3", "time_s": round(dt, 4)}
+        return discharge(self.eng, vc, self.timeout_ms)
+
+
 def run_function(task):
-    """worker: verify one function in one tree; returns picklable results"""
-    repo_root, tree, key, timeout_ms, want_sample = task
-    out = {"key": key, "tree": tree, "vcs": [], "error": None, "stats": {}, "covers": [], "ast_hash": None, "file": None}
+    """worker: verify one function in one tree; returns picklable results.
+    Results are memoised under .cache/ keyed by the sha256 of every repository source file, of
+    the verifier + contract sources, the function key, tree and solver budget: an identical
+    (code, contracts, verifier) triple is not re-proved by the next property check that needs
+    the same function.  Any edit to /repo or to /verif invalidates the entry."""
+    repo_root, tree, key, timeout_ms, want_sample, use_cache = task
+    out = {"key": key, "tree": tree, "vcs": [], "error": None, "stats": {}, "covers": [], "ast_hash": None, "file": None, "cached": False}
+    cache_path = None
     try:
         repo = Repo(repo_root)
+        if use_cache:
+            ck = hashlib.sha256(json.dumps([repo.file_hashes(), verif_source_hash(), key, tree, timeout_ms], sort_keys=True).encode()).hexdigest()
+            cache_path = os.path.join(HERE, ".cache", ck + ".json")
+            if os.path.exists(cache_path):
+                try:
+                    res = json.load(open(cache_path))
+                    res["cached"] = True
+                    return res
+                except Exception:
+                    pass
         reg = build_registry()
         eng = Engine(repo, reg, tree=tree, solver_timeout_ms=timeout_ms)
         contract = reg.contracts[key]
@@ -121,15 +240,18 @@ def run_function(task):
             return out
         out["ast_hash"] = fi.ast_hash()
         out["file"] = fi.file
+        t_v = time.time()
         info = eng.verify(fi, contract)
         out["stats"] = {**info, **eng.stats}
+        t_d = time.time()
         out["covers"] = sorted(eng.covers)
         sample_done = False
+        inc = IncrementalDischarger(eng, timeout_ms)
         for vc in eng.vcs:
             if want_sample and not sample_done:
                 vc.extra["want_smt"] = True
                 sample_done = True
-            res = discharge(eng, vc, timeout_ms)
+            res = inc.discharge(vc)
             out["vcs"].append(
                 {
                     "oid": vc.oid,
@@ -141,10 +263,21 @@ def run_function(task):
                     **res,
                 }
             )
+        out["stats"]["discharge_s"] = round(time.time() - t_d, 2)
+        out["stats"]["total_s"] = round(time.time() - t_v, 2)
+        out["stats"]["n_vcs"] = len(eng.vcs)
     except Unsupported as e:
         out["error"] = {"kind": "unsupported", "msg": str(e)}
     except Exception as e:  # checker crash
         out["error"] = {"kind": "crash", "msg": f"{type(e).__name__}: {e}", "tb": traceback.format_exc()[-3000:]}
+    if cache_path and not out["error"] and not any(v["status"] == "unknown" for v in out["vcs"]):
+        try:
+            os.makedirs(os.path.dirname(cache_path), exist_ok=True)
+            tmp = cache_path + f".{os.getpid()}.tmp"
+            json.dump(out, open(tmp, "w"), default=str)
+            os.replace(tmp, cache_path)
+        except Exception:
+            pass
     return out
 
 
@@ -166,6 +299,7 @@ def main(argv=None):
     ap.add_argument("--write-baseline", action="store_true")
     ap.add_argument("--verbose", "-v", action="store_true")
     ap.add_argument("--only", default=None, help="substring filter on function key (debugging)")
+    ap.add_argument("--no-cache", action="store_true")
     args = ap.parse_args(argv)
     prop = args.prop
     tier = "thorough" if args.tier == "thorough" else "quick"
@@ -183,6 +317,7 @@ def main(argv=None):
         return 3
 
     # extra (non symbolic-execution) obligation generators for this property: frame scans, twin check
+    use_cache = not args.no_cache and tier == "quick" and not os.environ.get("PYVC_NO_CACHE")
     tasks = []
     keys = [k for k, c in reg.contracts.items() if prop in c.props and not c.trusted]
     if args.only:
@@ -191,7 +326,7 @@ def main(argv=None):
         c = reg.contracts[key]
         trees = getattr(c, "trees", ("async", "sync"))
         for tree in trees:
-            tasks.append((os.path.abspath(args.repo), tree, key, timeout_ms, True))
+            tasks.append((os.path.abspath(args.repo), tree, key, timeout_ms, True, use_cache))
 
     results = []
     if tasks:
@@ -358,7 +493,7 @@ def write_evidence(prop, tier, seed, spec, reg, repo, results, obligations, disc
     covers = set()
     inlined = set()
     for r in results:
-        funcs.append({"function": r["key"], "tree": r["tree"], "file": r["file"], "ast_hash": r["ast_hash"], "paths": r["stats"].get("paths"), "exits": r["stats"].get("exits"), "error": r["error"]["msg"] if r["error"] else None})
+        funcs.append({"function": r["key"], "tree": r["tree"], "file": r["file"], "ast_hash": r["ast_hash"], "paths": r["stats"].get("paths"), "exits": r["stats"].get("exits"), "error": r["error"]["msg"] if r["error"] else None, "reused_from_result_cache": bool(r.get("cached"))})
         covers.update(r["covers"])
         for v in r["vcs"]:
             if prop in v["props"]:
@@ -389,6 +524,8 @@ def write_evidence(prop, tier, seed, spec, reg, repo, results, obligations, disc
             "trusted_base": sorted(set(spec.get("trusted", []) + reg.trusted_notes + P_GLOBAL_TRUST)),
             "functions_under_contract": funcs,
             "covers_reached": len(covers),
+            "functions_reused_from_result_cache": sum(1 for r in results if r.get("cached")),
+            "result_cache_rule": "a function's VC verdicts are reused only when the sha256 of every repository source file, of the verifier and contract sources, the function key, tree and solver budget are all identical to the run that produced them (quick tier only; thorough always re-proves)",
             "back_ends": sorted({s for o in obligations.values() for s in o["solver"]}),
             "solver_time_s": round(solver_time, 3),
             "slow_obligations": slow,
